@@ -4,9 +4,10 @@ import copy
 from . import ringsys, tlc
 from .core import Machinery
 
-C05_FLAGS = {'dup', 'notlive', 'count', 'diverse', 'route', 'arcconst', 'nondeterministic'}
-C06_FLAGS = {'ring', 'route', 'history', 'history:collision', 'freshring', 'keyhash', 'arcconst'}
+C05_FLAGS = {'dup', 'notlive', 'count', 'diverse', 'route', 'arcconst', 'nondeterministic', 'raised'}
+C06_FLAGS = {'ring', 'route', 'history', 'history:collision', 'freshring', 'keyhash', 'arcconst', 'raised'}
 WHAT = {
+  'raised': 'routing a key raised an exception instead of returning destinations',
   'dup': 'a destination is returned twice for one key',
   'notlive': 'a destination that is not configured is returned',
   'count': 'the number of destinations is not min(REPLICATION_FACTOR, eligible destinations)',
@@ -68,7 +69,7 @@ def scenarios(ctx, rm, pid):
     ops = ringsys.gen_ops(rng, nn, rng.randint(0, ctx.pick(3, 6)) if replicas < 100 else rng.randint(0, 2))
     traces.append(ringsys.scenario(rm, rng, nodes, ops, rf=rng.randint(1, 4), diverse=rng.random() < 0.5,
                                    replicas=replicas, hash_type=ht, sweep_all=True))
-  for _ in range(ctx.pick(15, 150)):
+  for _ in range(ctx.pick(40, 300)):
     nn = rng.randint(1, 6)
     nodes = ringsys.make_nodes(rng, nn)
     ops = ringsys.gen_ops(rng, nn, rng.randint(0, 4))
